@@ -714,7 +714,7 @@ func (em *emitter) emitSelect(selectNode *ast.Select) {
 
 	// Emit an empty select.
 	if len(selectNode.Cases) == 0 {
-		em.fb.emitSelect()
+		em.fb.emitSelect(selectNode.Pos())
 		return
 	}
 
@@ -780,7 +780,7 @@ func (em *emitter) emitSelect(selectNode *ast.Select) {
 	}
 
 	// Emit the 'select' instruction.
-	em.fb.emitSelect()
+	em.fb.emitSelect(selectNode.Pos())
 
 	// Emit bodies of the 'select' cases.
 	casesEnd := em.fb.newLabel()
